@@ -282,7 +282,7 @@ def run(ctx, deep, model_ok):
                 ctx.broken.append(('correspondence-broken', name + ': ' + e))
             for i in failing[:2]:
                 case = meta[i] if meta else {'kind': 'default-datatype', 'term': terms[i]}
-                ctx.violation('failing-input', 'model and implementation disagree (%s): %s' % (name, terms[i][:160]), case,
+                ctx.disagree('model and implementation disagree (%s): %s' % (name, terms[i][:160]), case,
                               python=py_of(case) if 'value_repr' in case else None)
             ctx.notes[name + '_compared_in_coq'] = len(terms)
     if f23:
